@@ -110,6 +110,32 @@ Fixpoint resolve (fuel : nat) (F : list fact) (asz : Z -> Z) (p : operand) : opt
   end.
 Definition RFUEL : nat := 24.
 
+Definition same_fixed (r1 r2 : option Z * option Z) : bool :=
+  match r1, r2 with
+  | (b1, Some o1), (b2, Some o2) => (o1 =? o2) && match b1, b2 with None, None => true | Some i, Some j => i =? j | _, _ => false end
+  | _, _ => false
+  end.
+
+(* value equivalence of two operands under the available facts: copies, equal resolved addresses, and congruence
+   (both defined by the same read-only operation on equivalent arguments with no conflicting write since) *)
+Fixpoint equiv (fuel : nat) (F : list fact) (asz : Z -> Z) (a b : operand) : bool :=
+  operand_eqb a b ||
+  match fuel with
+  | O => false
+  | S n =>
+      let da := match a with OVar x => find_def F x | _ => None end in
+      let db := match b with OVar y => find_def F y | _ => None end in
+      match da with Some (op, [q]) => (op =s "assign") && equiv n F asz q b | _ => false end
+      || match db with Some (op, [q]) => (op =s "assign") && equiv n F asz a q | _ => false end
+      || match da, db with
+         | Some (op, aa), Some (op', ab) => (op =s op') && list_eqb (equiv n F asz) aa ab
+         | _, _ => false
+         end
+      || same_fixed (resolve RFUEL F asz a) (resolve RFUEL F asz b)
+  end.
+Definition EFUEL : nat := 6.
+Definition eqv (F : list fact) (asz : Z -> Z) : operand -> operand -> bool := equiv EFUEL F asz.
+
 Definition sym_size (args : list operand) (z : asize) : option Z :=
   match z with
   | SzC n => Some n
@@ -148,46 +174,66 @@ Definition fact_reads (g : fact) : list sp * list (list operand * srange) :=
   end.
 
 Definition sp_written (sh : shape) (s : sp) : bool := in_sps s (sh_wall sh).
-Definition range_clear (strict : bool) (F : list fact) (asz : Z -> Z) (i : inst) (gargs : list operand) (r : srange) : bool :=
-  let sh := wshape (i_op i) in
+(* the write footprint of an instruction, resolved once *)
+Definition wlocs (F : list fact) (asz : Z -> Z) (sh : shape) (args : list operand) : list (sp * memloc) :=
+  map (fun w => (sr_sp w, sym_loc F asz args w)) (sh_w sh).
+Definition range_clear (strict : bool) (F : list fact) (asz : Z -> Z) (sh : shape) (wl : list (sp * memloc))
+           (gargs : list operand) (r : srange) : bool :=
   negb (sp_written sh (sr_sp r)) &&
-  forallb (fun w => negb (sp_eqb (sr_sp w) (sr_sp r))
-                    || locs_disjoint strict asz (sym_loc F asz (i_args i) w) (sym_loc F asz gargs r)) (sh_w sh).
-Definition survives (strict : bool) (F : list fact) (asz : Z -> Z) (i : inst) (g : fact) : bool :=
-  let sh := wshape (i_op i) in
-  negb (existsb (mentions g) (i_outs i)) &&
-  forallb (fun s => negb (sp_written sh s) && forallb (fun w => negb (sp_eqb (sr_sp w) s)) (sh_w sh)) (fst (fact_reads g)) &&
-  forallb (fun ar => range_clear strict F asz i (fst ar) (snd ar)) (snd (fact_reads g)).
+  forallb (fun w => negb (sp_eqb (fst w) (sr_sp r)) || locs_disjoint strict asz (snd w) (sym_loc F asz gargs r)) wl.
+Definition survives (strict : bool) (F : list fact) (asz : Z -> Z) (outs : list N) (sh : shape) (wl : list (sp * memloc))
+           (g : fact) : bool :=
+  negb (existsb (mentions g) outs) &&
+  (null wl && null (sh_wall sh) ||
+   let rr := fact_reads g in
+   forallb (fun s => negb (sp_written sh s) && forallb (fun w => negb (sp_eqb (fst w) s)) wl) (fst rr) &&
+   forallb (fun ar => range_clear strict F asz sh wl (fst ar) (snd ar)) (snd rr)).
 
 Definition store_space (op : string) : option sp :=
   if op =s "mstore" then Some Mem else if op =s "sstore" then Some Sto else if op =s "tstore" then Some Tra else None.
 
+Definition load_space (op : string) : option sp :=
+  if op =s "mload" then Some Mem else if op =s "sload" then Some Sto else if op =s "tload" then Some Tra else None.
+
 Definition new_facts (i : inst) : list fact :=
   match i_outs i with
-  | [x] => if ro_ok (i_op i) && negb (existsb (is_var x) (i_args i)) then [FEq (OVar x) (i_op i) (i_args i)] else []
+  | [x] => if ro_ok (i_op i) && negb (existsb (is_var x) (i_args i)) then
+             FEq (OVar x) (i_op i) (i_args i)
+             :: match load_space (i_op i), i_args i with Some s, [p] => [FCell s p (OVar x)] | _, _ => [] end
+           else []
   | [] =>
       match store_space (i_op i), i_args i with
-      | Some s, [v; p] => [FCell s p v; FEq v (load_op s) [p]]
+      | Some s, [v; p] => [FCell s p v]
       | _, _ => if i_op i =s "assert" then match i_args i with [c] => [FNz c] | _ => [] end else []
       end
   | _ => []
   end.
 
 Definition facts_step (strict : bool) (F : list fact) (asz : Z -> Z) (i : inst) : list fact :=
-  new_facts i ++ filter (survives strict F asz i) F.
+  let sh := wshape (i_op i) in
+  let wl := wlocs F asz sh (i_args i) in
+  new_facts i ++ filter (survives strict F asz (i_outs i) sh wl) F.
 
 (* ------------------------------------------------------------------ the validator for LoadElimination and CSE *)
-Definition justified (F : list fact) (i i' : inst) : bool :=
+Definition cell_known (F : list fact) (asz : Z -> Z) (s : sp) (p v : operand) : bool :=
+  existsb (fun g => match g with FCell s' p' v' => sp_eqb s s' && eqv F asz p' p && eqv F asz v' v | _ => false end) F.
+Definition value_known (F : list fact) (asz : Z -> Z) (op : string) (args : list operand) (v : operand) : bool :=
+  existsb (fun g => match g with FEq w op' a' => (op' =s op) && list_eqb (eqv F asz) a' args && eqv F asz w v | _ => false end) F.
+Definition nz_known (F : list fact) (asz : Z -> Z) (c : operand) : bool :=
+  existsb (fun g => match g with FNz c' => eqv F asz c' c | _ => false end) F.
+
+Definition justified (F : list fact) (asz : Z -> Z) (i i' : inst) : bool :=
   inst_eqb i i'
   || match i_outs i, i_args i' with
      | [x], [v] => (i_op i' =s "assign") && list_eqb N.eqb (i_outs i') [x] && ro_ok (i_op i)
-                   && has_fact (FEq v (i_op i) (i_args i)) F
+                   && (value_known F asz (i_op i) (i_args i) v
+                       || match load_space (i_op i), i_args i with Some s, [p] => cell_known F asz s p v | _, _ => false end)
      | _, _ => false
      end
   || ((i_op i' =s "nop") && null (i_outs i') && null (i_outs i)
       && match store_space (i_op i), i_args i with
-         | Some s, [v; p] => has_fact (FCell s p v) F
-         | None, [c] => (i_op i =s "assert") && has_fact (FNz c) F
+         | Some s, [v; p] => cell_known F asz s p v
+         | None, [c] => (i_op i =s "assert") && nz_known F asz c
          | _, _ => false
          end).
 
@@ -206,17 +252,17 @@ Fixpoint scan (strict : bool) (f : func) (C : cert) (asz : Z -> Z) (F : list fac
   match l, l' with
   | [], [] => true
   | i :: t, i' :: t' =>
-      justified F i i' && forallb (edge_ok f C F) (succs i) && scan strict f C asz (facts_step strict F asz i) t t'
+      justified F asz i i' && forallb (edge_ok f C F) (succs i) && scan strict f C asz (facts_step strict F asz i) t t'
   | _, _ => false
   end.
 
-Definition check_block (strict : bool) (f f' : func) (C : cert) (b : N) : bool :=
+Definition check_block (strict : bool) (f f' : func) (C : cert) (asz : Z -> Z) (b : N) : bool :=
   list_eqb inst_eqb (leading_phis (nth_block f b)) (leading_phis (nth_block f' b))
-  && scan strict f C (asz_of f) (cert_at C b) (body (nth_block f b)) (body (nth_block f' b)).
+  && scan strict f C asz (cert_at C b) (body (nth_block f b)) (body (nth_block f' b)).
 
 Definition fwd_check_with (strict : bool) (f f' : func) (C : cert) : bool :=
   Nat.eqb (List.length f) (List.length f') && null (cert_at C 0%N)
-  && forallb (fun b => check_block strict f f' C (N.of_nat b)) (seq 0 (List.length f)).
+  && (let asz := asz_of f in forallb (fun b => check_block strict f f' C asz (N.of_nat b)) (seq 0 (List.length f))).
 
 (* ------------------------------------------------------------------ certificate inference (not trusted: `fwd_check_with`
    re-checks whatever this computes).  Round-robin must-analysis: None = not reached yet. *)
@@ -241,19 +287,25 @@ Fixpoint flow (strict : bool) (f : func) (asz : Z -> Z) (F : list fact) (l : lis
       flow strict f asz (facts_step strict F asz i) t acc'
   end.
 
-Definition infer_round (strict : bool) (f : func) (acc : list (option (list fact))) : list (option (list fact)) :=
+Definition infer_round (strict : bool) (f : func) (asz : Z -> Z) (acc : list (option (list fact))) : list (option (list fact)) :=
   fold_left (fun a b =>
                match nth b a None with
                | None => a
-               | Some F => flow strict f (asz_of f) F (body (nth b f [])) a
+               | Some F => flow strict f asz F (body (nth b f [])) a
                end) (seq 0 (List.length f)) acc.
 
-Fixpoint infer_iter (n : nat) (strict : bool) (f : func) (acc : list (option (list fact))) : list (option (list fact)) :=
-  match n with O => acc | S k => infer_iter k strict f (infer_round strict f acc) end.
+Definition measure (acc : list (option (list fact))) : nat :=
+  fold_left (fun n o => match o with None => S n | Some F => (n + 2 * List.length F)%nat end) acc O.
+Fixpoint infer_iter (n : nat) (strict : bool) (f : func) (asz : Z -> Z) (acc : list (option (list fact))) : list (option (list fact)) :=
+  match n with
+  | O => acc
+  | S k => let acc' := infer_round strict f asz acc in
+           if Nat.eqb (measure acc') (measure acc) then acc' else infer_iter k strict f asz acc'
+  end.
 
 Definition infer (strict : bool) (f : func) : cert :=
   let init := Some [] :: repeat None (List.length f - 1) in
-  map (fun o => match o with Some F => F | None => [] end) (infer_iter (2 + List.length f) strict f init).
+  map (fun o => match o with Some F => F | None => [] end) (let asz := asz_of f in infer_iter (4 + 2 * List.length f) strict f asz init).
 
 Definition empty_cert (f : func) : cert := repeat [] (List.length f).
 
